@@ -217,6 +217,78 @@ func runC17(c *Ctx) {
 			return fmt.Sprintf("%s %v %v", hxv(id), err == nil, bytes.Equal(resp, resp2)), wantID + " true true"
 		}
 	})
+	// split roles on a freshly constructed issuer: half of the goroutines only evaluate, the other half only ask for the key id,
+	// and nobody has touched the object before — a key id computed lazily races with an evaluation that never asked for it
+	// (round 6). Requests and the expected id come from a second issuer object on the same key.
+	scenario("type2.issuer:Evaluate‖TokenKeyID(split roles)", func() func(g, k int) (string, string) {
+		key := rsaKey(r.IntN(4))
+		iss := type2.NewBasicPublicIssuer(key)
+		ref := type2.NewBasicPublicIssuer(key)
+		refID := ref.TokenKeyID()
+		return func(g, k int) (string, string) {
+			if g%2 == 1 {
+				return hxv(iss.TokenKeyID()), hxv(refID)
+			}
+			st, err := type2.NewBasicPublicClient().CreateTokenRequest(msg(g, k), bytes.Repeat([]byte{byte(g)}, 32), refID, ref.TokenKey())
+			if err != nil {
+				return "create-error", "ok"
+			}
+			resp, err := iss.Evaluate(st.Request())
+			if err != nil {
+				return "evaluate-error", "ok"
+			}
+			_, err = st.FinalizeToken(resp)
+			return fmt.Sprint(err == nil), "true"
+		}
+	})
+	scenario("type1.issuer:Evaluate‖TokenKeyID(split roles)", func() func(g, k int) (string, string) {
+		seed := r.Bytes(16)
+		iss := type1.NewBasicPrivateIssuer(oprfKey(oprf.SuiteP384, seed))
+		ref := type1.NewBasicPrivateIssuer(oprfKey(oprf.SuiteP384, seed))
+		refID := ref.TokenKeyID()
+		pe, _ := ref.TokenKey().MarshalBinary()
+		return func(g, k int) (string, string) {
+			if g%2 == 1 {
+				return hxv(iss.TokenKeyID()), hxv(refID)
+			}
+			pk := new(oprf.PublicKey)
+			pk.UnmarshalBinary(oprf.SuiteP384, pe)
+			st, err := type1.NewBasicPrivateClient().CreateTokenRequest(msg(g, k), bytes.Repeat([]byte{byte(g)}, 32), refID, pk)
+			if err != nil {
+				return "create-error", "ok"
+			}
+			resp, err := iss.Evaluate(st.Request())
+			if err != nil {
+				return "evaluate-error", "ok"
+			}
+			_, err = st.FinalizeToken(resp)
+			return fmt.Sprint(err == nil), "true"
+		}
+	})
+	scenario("type5.issuer:Evaluate‖TokenKeyID(split roles)", func() func(g, k int) (string, string) {
+		seed := r.Bytes(16)
+		iss := type5.NewBatchedPrivateIssuer(oprfKey(oprf.SuiteRistretto255, seed))
+		ref := type5.NewBatchedPrivateIssuer(oprfKey(oprf.SuiteRistretto255, seed))
+		refID := ref.TokenKeyID()
+		pe, _ := ref.TokenKey().MarshalBinary()
+		return func(g, k int) (string, string) {
+			if g%2 == 1 {
+				return hxv(iss.TokenKeyID()), hxv(refID)
+			}
+			pk := new(oprf.PublicKey)
+			pk.UnmarshalBinary(oprf.SuiteRistretto255, pe)
+			st, err := type5.NewBatchedPrivateClient().CreateTokenRequest(msg(g, k), [][]byte{bytes.Repeat([]byte{byte(g)}, 32)}, refID, pk)
+			if err != nil {
+				return "create-error", "ok"
+			}
+			resp, err := iss.Evaluate(st.Request())
+			if err != nil {
+				return "evaluate-error", "ok"
+			}
+			_, err = st.FinalizeTokens(resp)
+			return fmt.Sprint(err == nil), "true"
+		}
+	})
 	scenario("type3.issuer:Evaluate+TokenKeyID+NameKey", func() func(g, k int) (string, string) {
 		iss := type3.NewRateLimitedIssuer(rsaKey(r.IntN(4)))
 		iss.AddOrigin("a.example")
